@@ -684,6 +684,93 @@ def run(ctx):
                               rfc7797=b64 is not None, payload_arg=parg)
 
         # ------------------------------------------------------------------
+        # NEAR keys, for every way a key enters the library: verify(token_K, K') must be rejected
+        # whenever octets(K') != octets(K) (the material the caller gave), accepted when equal;
+        # the token is MACed HERE (hmac directly) so that nothing depends on the library's import
+        # ------------------------------------------------------------------
+        import hmac as _hm, hashlib as _hl
+        from joserfc.jwk import JWKRegistry as _JR
+        bases = [b"secret-key-0123456789abcdef-XYZ", b" lead-space-key-0123456789abcdef", b"\tTab\nKey-0123456789abcdefgh\r\n",
+                 bytes(rng.randrange(33, 127) for _ in range(32)), b"\x0b\x0c\x20" + bytes(rng.randrange(256) for _ in range(29))]
+
+        def near(Kb):
+            out = [("equal", Kb)]
+            for wsb in (b" ", b"\t", b"\n", b"\r", b"\x0b", b"\x0c", b"\x00", b"\xa0", b"\x85"):
+                out.append(("prepend-%02x" % wsb[0], wsb + Kb))
+                if wsb != b"\x00":      # HMAC zero-pads short keys (RFC 2104): K and K + NUL are the SAME MAC key
+                    out.append(("append-%02x" % wsb[0], Kb + wsb))
+            out += [("lstrip", Kb.lstrip()), ("rstrip", Kb.rstrip()), ("strip", Kb.strip()), ("drop-first", Kb[1:]), ("drop-last", Kb[:-1]),
+                    ("extend", Kb + b"x"), ("append-eq", Kb + b"="), ("swapcase", Kb.swapcase()), ("lower", Kb.lower()), ("upper", Kb.upper()),
+                    ("b64-text", b64u(Kb)), ("crlf", Kb + b"\r\n"), ("double-space", b"  " + Kb)]
+            return out
+
+        def entries(kb):
+            """every way raw octets become a key"""
+            out = [("bytes", lambda: OctKey.import_key(kb)), ("bytearray", lambda: OctKey.import_key(bytearray(kb))),
+                   ("registry-bytes", lambda: _JR.import_key(kb, "oct")),
+                   ("jwk-dict", lambda: OctKey.import_key({"kty": "oct", "k": b64u(kb).decode()})),
+                   ("jwk-dict-registry", lambda: _JR.import_key({"kty": "oct", "k": b64u(kb).decode()})),
+                   ("raw-bytes-as-key", lambda: kb)]
+            try:
+                st = kb.decode("utf-8")
+                out += [("str", lambda: OctKey.import_key(st)), ("raw-str-as-key", lambda: st)]
+            except ValueError:
+                pass
+            return out
+
+        for Kb in bases:
+            hdr = {"alg": "HS256"}
+            hs_ = b64u(json.dumps(hdr, separators=(",", ":")).encode())
+            ps_ = b64u(b"near-key")
+            tok = hs_ + b"." + ps_ + b"." + b64u(_hm.new(Kb, hs_ + b"." + ps_, _hl.sha256).digest())
+            for vname, Kp in near(Kb):
+                if not Kp:
+                    continue
+                for ename, mk in entries(Kp):
+                    if quick and vname not in ("equal", "prepend-20", "prepend-09", "prepend-0a", "lstrip", "append-0a") and rng.random() < 0.6:
+                        continue
+                    kobj = call(mk)
+                    if kobj[0] != "ok":
+                        continue
+                    keyarg = kobj[1]
+                    ctx.note_case(("near-key", Kb, vname, ename))
+                    R.note("near-key:%s" % ("equal" if Kp == Kb else "different"))
+                    if isinstance(keyarg, OctKey):
+                        # the material the MAC uses is exactly the octets given
+                        used = call(lambda: (keyarg.raw_value, keyarg.get_op_key("verify"), keyarg.get_op_key("sign")))
+                        if used[0] != "ok" or any(u != Kp for u in used[1]):
+                            ctx.violation({"kind": "oct-import-not-exact", "entry": ename}, "an oct key imported (%s) from %r has key material %r" % (ename, Kp, used[1]),
+                                          {"fn": "oct-import", "given_hex": Kp.hex(), "entry": ename})
+                        if used[0] == "ok":
+                            R.add("JOctImport %s %s" % (c_hex(Kp), c_hex(used[1][1])), {"fn": "oct-import", "what": "oct-import:" + ename, "given": Kp.hex()},
+                                  force=(vname.startswith("prepend") or vname == "equal"))
+                        R.des_compact(tok, keyarg, ["HS256"], Kp != Kb, (hdr, b"near-key"), "valid" if Kp == Kb else "near-key-%s:%s" % (vname, ename),
+                                      coq=(ename in ("bytes", "jwk-dict")))
+                    else:
+                        rec.take()
+                        r = call(jws.deserialize_compact, tok, keyarg, ["HS256"])
+                        rec.take()
+                        if (r[0] == "ok") != (Kp == Kb):
+                            ctx.violation({"kind": "near-key", "entry": ename}, "a token MACed with %r %s under the raw key %r (%s)" % (
+                                Kb, "verifies" if r[0] == "ok" else "is rejected: %r" % (r[1],), Kp, vname), {"fn": "near-key-raw", "token": tok.decode(), "key_hex": Kp.hex()})
+        # asymmetric keys: the same key re-encoded (PEM with extra whitespace) must ACCEPT; another key must not
+        from joserfc.jwk import ECKey as _EC, RSAKey as _RSA, OKPKey as _OK
+        for alg, kn, cls in (("ES256", "p256", _EC), ("RS256", "rsa", _RSA), ("EdDSA", "ed25519", _OK)):
+            k = K[kn]
+            tok = jws.serialize_compact({"alg": alg}, b"pem", k, [alg]).encode()
+            pem = k.as_pem(private=False)
+            rec.take()
+            for name, data, same in (("pem", pem, True), ("pem-leading-ws", b"\n  \t" + pem, True), ("pem-trailing-ws", pem + b"\n\n  ", True),
+                                     ("pem-crlf", pem.replace(b"\n", b"\r\n"), True),
+                                     ("pem-other-key", (K[J.other_key_same_type(kn)] if J.other_key_same_type(kn) else J.second_rsa()).as_pem(private=False), False)):
+                ko = call(cls.import_key, data)
+                if ko[0] != "ok":
+                    if same and name == "pem":
+                        ctx.violation({"kind": "pem-import"}, "importing the key's own PEM failed: %r" % (ko[1],), {"fn": "pem-import", "alg": alg})
+                    continue
+                R.des_compact(tok, ko[1], [alg], not same, ({"alg": alg}, b"pem"), "valid" if same else "near-key-pem-other:" + name)
+
+        # ------------------------------------------------------------------
         # jwt.decode without a JWERegistry must never return a Token for an input that carries
         # no valid signature: JWEs encrypted to the verifier's own public key, other non-JWS values
         # ------------------------------------------------------------------
